@@ -11,7 +11,8 @@ CONSTANTS OutDir
 VARIABLE hist
 
 Proj(s) == [term |-> s.term, vote |-> ToString(s.vote), role |-> s.role,
-            last |-> LastIdx(s.log), lastt |-> LastTerm(s.log), commit |-> s.commit]
+            last |-> LastIdx(s.log), lastt |-> LastTerm(s.log), commit |-> s.commit,
+            pend |-> Cardinality(DOMAIN s.pend), base |-> s.log.base, snap |-> s.snap.idx]
 Step(a, n, p, v) == hist' = Append(hist, [a |-> a, n |-> ToString(n), p |-> ToString(p), v |-> ToString(v),
                                           post |-> [m \in Node |-> Proj(ns'[m])]])
 
@@ -25,6 +26,8 @@ GNext ==
   \/ \E n \in Node, v \in Value : ClientSubmit(n, v) /\ Step("ClientSubmit", n, n, v)
   \/ \E n \in Node : Crash(n) /\ Step("Crash", n, n, "")
   \/ \E n \in Node : Restart(n) /\ Step("Restart", n, n, "")
+  \/ \E n \in Node : ArmSnapshot(n) /\ Step("ArmSnapshot", n, n, "")
+  \/ \E n, p \in Node : ISExchange(n, p) /\ Step("ISExchange", n, p, "")
 GSpec == GInit /\ [][GNext]_<<vars, hist>>
 
 \* "invariant" with a side effect: the current prefix of behaviour number k goes to t<k>.json
